@@ -5,6 +5,8 @@ package main
 
 import (
 	"fmt"
+	"os"
+	"runtime"
 	"strconv"
 	"strings"
 	"time"
@@ -25,6 +27,41 @@ type streamRun struct {
 	qlt    uint64
 	hand   int
 	logh   int
+	sawDecodeErr bool
+}
+
+// sendRequest puts one request (header and body) of the connection part on the wire.
+func (r *streamRun) sendRequest(st h.Step) {
+	seq := uint64(st.Int("seq"))
+	switch st.A() {
+	case "stream":
+		_ = r.c.header("stream", seq)
+		_ = r.c.send(map[string]interface{}{"Type": filterStrings[st.Int("f")]})
+	case "monitor":
+		_ = r.c.header("monitor", seq)
+		_ = r.c.send(map[string]interface{}{"LogLevel": "debug"})
+	case "stop":
+		_ = r.c.header("stop", seq)
+		_ = r.c.send(map[string]interface{}{"Stop": uint64(st.Int("stop"))})
+	case "members":
+		_ = r.c.header("members", seq)
+	default:
+		h.Die("stream: unknown request %q", st.A())
+	}
+}
+
+// serverSenders counts the server goroutines that are inside IPCClient.Send (writing to the pipe or waiting
+// for the connection's write lock).
+func serverSenders() int {
+	buf := make([]byte, 1<<20)
+	n := runtime.Stack(buf, true)
+	c := 0
+	for _, g := range strings.Split(string(buf[:n]), "\n\n") {
+		if strings.Contains(g, "(*IPCClient).Send") {
+			c++
+		}
+	}
+	return c
 }
 
 func newStreamRun() *streamRun {
@@ -106,11 +143,20 @@ func (r *streamRun) observe() map[string]interface{} {
 	rep := []map[string]interface{}{}
 	recs := []map[string]interface{}{}
 	logs := map[int]bool{}
+	garbled := 0
+	r.c.mu.Lock()
+	if r.c.decodeErr != "" && !r.sawDecodeErr {
+		r.sawDecodeErr = true
+		garbled++
+	}
+	r.c.mu.Unlock()
 	for _, f := range r.c.take() {
 		rec := func(k string, n, id int) {
 			recs = append(recs, map[string]interface{}{"seq": int(f.Seq), "k": k, "n": n, "id": id})
 		}
 		switch f.Kind {
+		case "orphan":
+			garbled++
 		case "log":
 			logs[int(f.Seq)] = true
 		case "uev":
@@ -142,27 +188,36 @@ func (r *streamRun) observe() map[string]interface{} {
 	for s := range logs {
 		ls = append(ls, s)
 	}
-	return map[string]interface{}{"rep": rep, "recs": recs, "logs": ls, "closed": r.c.isClosed()}
+	return map[string]interface{}{"rep": rep, "recs": recs, "logs": ls, "closed": r.c.isClosed(), "garbled": garbled}
 }
 
 func (r *streamRun) step(st h.Step) map[string]interface{} {
 	seq := uint64(0)
 	evBase, evWant := r.e.evrec.count(), 0
-	if st.A() != "emit" && st.A() != "burst" && st.A() != "close" {
+	if st.A() != "emit" && st.A() != "burst" && st.A() != "close" && st.A() != "slow" {
 		seq = uint64(st.Int("seq"))
 	}
 	switch st.A() {
-	case "stream":
-		_ = r.c.header("stream", seq)
-		_ = r.c.send(map[string]interface{}{"Type": filterStrings[st.Int("f")]})
-	case "monitor":
-		_ = r.c.header("monitor", seq)
-		_ = r.c.send(map[string]interface{}{"LogLevel": "debug"})
-	case "stop":
-		_ = r.c.header("stop", seq)
-		_ = r.c.send(map[string]interface{}{"Stop": uint64(st.Int("stop"))})
-	case "members":
-		_ = r.c.header("members", seq)
+	case "stream", "monitor", "stop", "members":
+		r.sendRequest(st)
+	case "slow":
+		// SLOW READER: nothing is read while the events reach the agent and a request is sent; every sender of
+		// the connection (stream goroutines, the request handler) is then inside Send while a write is in flight
+		r.c.conn.setStalled(true)
+		for _, x := range st.List("evs") {
+			ev := h.Step(x.(map[string]interface{}))
+			r.emit(ev.Str("k"), ev.Int("n"), ev.Int("id"))
+			evWant++
+		}
+		if !poll(5*time.Second, func() bool { return r.e.evrec.count() >= evBase+evWant }) {
+			fmt.Fprintf(os.Stderr, "driver: stream: the agent dispatched %d of %d events (recorded as observed)\n", r.e.evrec.count()-evBase, evWant)
+		}
+		evWant = 0
+		before := serverSenders()
+		r.sendRequest(st.Rec("req"))
+		// the handler has reached Send (bounded wait; the monitors judge whatever happens)
+		poll(300*time.Millisecond, func() bool { return serverSenders() > before })
+		r.c.conn.setStalled(false)
 	case "query":
 		_ = r.c.header("query", seq)
 		_ = r.c.send(map[string]interface{}{"Name": fmt.Sprintf("q%d", st.Int("n")), "Payload": []byte(strconv.Itoa(st.Int("id"))),
@@ -183,7 +238,7 @@ func (r *streamRun) step(st h.Step) map[string]interface{} {
 			r.emit("user", st.Int("n"), st.Int("id")+i)
 		}
 		if !poll(10*time.Second, func() bool { return r.e.evrec.count() >= base+m }) {
-			h.Die("burst: the agent dispatched %d of %d events", r.e.evrec.count()-base, m)
+			fmt.Fprintf(os.Stderr, "driver: burst: the agent dispatched %d of %d events (recorded as observed)\n", r.e.evrec.count()-base, m)
 		}
 		time.Sleep(2 * time.Millisecond)
 		r.c.conn.setStalled(false)
@@ -208,8 +263,10 @@ func (r *streamRun) step(st h.Step) map[string]interface{} {
 	w := st.Int("w")
 	// the events of this step have been dispatched by the agent's event loop (ground truth recorder): a stream
 	// registered by a later step cannot see them
-	if evWant > 0 && !poll(5*time.Second, func() bool { return r.e.evrec.count() >= evBase+evWant }) {
-		h.Die("stream: the agent dispatched %d of %d events", r.e.evrec.count()-evBase, evWant)
+	// (a shortfall is not a harness fault: e.g. a request the server never processed because the connection is
+	// wedged; it is recorded as observed and the monitors judge the frames)
+	if evWant > 0 && !poll(3*time.Second, func() bool { return r.e.evrec.count() >= evBase+evWant || r.c.isClosed() }) {
+		fmt.Fprintf(os.Stderr, "driver: stream: the agent dispatched %d of %d events (recorded as observed)\n", r.e.evrec.count()-evBase, evWant)
 	}
 	poll(2*time.Second, func() bool { return r.nonLogFrames() >= w || r.c.isClosed() })
 	if st.A() == "query" {
